@@ -1,4 +1,5 @@
 import OptRs.Driver.Atoms
+import OptRs.Driver.Terms
 open OptRs.Driver
 
 partial def loop (h : IO.FS.Stream) (out : IO.FS.Stream) (f : String → String) : IO Unit := do
@@ -13,5 +14,6 @@ def main (args : List String) : IO UInt32 := do
   let stdout ← IO.getStdout
   match args with
   | ["atoms"] => loop stdin stdout atomsLine; return 0
+  | ["terms"] => loop stdin stdout termsLine; return 0
   | ["atoms-oracle"] => loop stdin stdout AtomsOracle.check; return 0
   | _ => IO.eprintln "usage: optrs-model <stream>"; return 2
